@@ -108,10 +108,7 @@ theorem numchar_clean {t : List Char} (hne : t ≠ []) (h : ∀ c ∈ t, isDigit
       (c == ';') = false ∧ isBracket c = false ∧ isSpace c = false ∧ c ≠ 'i' ∧ c ≠ 'n' := by
     intro c h
     rcases h with h | h | h
-    · unfold isDigit at h
-      simp only [Bool.and_eq_true, decide_eq_true_eq] at h
-      have h1 : 48 ≤ c.toNat := h.1
-      have h2 : c.toNat ≤ 57 := h.2
+    · obtain ⟨h1, h2⟩ := (isDigit_iff c).1 h
       have ne : ∀ k : Char, (k.toNat < 48 ∨ 57 < k.toNat) → c ≠ k := by
         intro k hk e; subst e; omega
       refine ⟨?_, ?_, ?_, ne 'i' (by decide), ne 'n' (by decide)⟩
@@ -186,4 +183,22 @@ theorem read_render (R : α → Prop) (law : NumLaw R) (c d : Interval α) (s : 
         rfl
 
 end
+
+/-- `read_render` failed of the code as found: the description `getDescription` writes for `[0,1]`
+(`"[ 0; 1] "`) made `readDescription` raise, after writing the flags — the text `" 0"` reached
+`toDouble` with its blank -/
+theorem legacy_read_render_witness (d : Interval Rat) :
+    Legacy.readDescription d ['[', ' ', '0', ';', ' ', '1', ']', ' '] =
+      .done { d with inclLo := true, inclHi := true } true := by
+  have h : (NumText.parseNum [' ', '0'] : NumParse Rat) = .reject := by
+    show parseRat [' ', '0'] = .reject
+    unfold parseRat
+    have : isDecimalNumber [' ', '0'] = false := by decide
+    simp [this]
+  have e1 : findSemi ['[', ' ', '0', ';', ' ', '1', ']', ' '] = some 3 := by decide
+  have e2 : findBracket1 ['[', ' ', '0', ';', ' ', '1', ']', ' '] = some 6 := by decide
+  unfold Legacy.readDescription
+  rw [e1, e2]
+  simp [readCore, h]
+
 end Bpp.C01
